@@ -277,6 +277,13 @@ type c06Case struct {
 // runCase issues one request of the given kind with the given faults (fault name -> position) and judges it.
 func (e *c06Env) runCase(r *rand.Rand, kind string, n int, via Via, faults map[string]int) {
 	env := e.Env
+	// A request that never returns yields no signature, so it is not this property's violation (completion under
+	// faults is watched by C15), but it must not hold this check up until the overall watchdog.
+	wd := time.AfterFunc(90*time.Second, func() {
+		fmt.Printf("INCONCLUSIVE property=C06 reason=a %s request of %d entries did not return within 90 s under faults %v\n", kind, n, faults)
+		os.Exit(2)
+	})
+	defer wd.Stop()
 	env.FreshKeys(n)
 	runtime.GOMAXPROCS(procsMix[(n+len(faults)+int(via))%len(procsMix)])
 	addrs := make([]Addr, n)
